@@ -157,6 +157,16 @@ var seeds = []seed{
 		Old: "_ = app.EvmKeeper.DeleteAccount(ctx, common.HexToAddress(DeprecatedPacketContractAddress))", New: "_ = DeprecatedPacketContractAddress"},
 	{Prop: "C15", Name: "prune scan tolerates a missing consensus state and dereferences it", File: fEthUpd, Expect: "C15/result-used-only",
 		Old: "\t\tif err != nil {\n\t\t\tpruneError = err", New: "\t\tif err != nil && !clienttypes.ErrInvalidConsensus.Is(err) {\n\t\t\tpruneError = err"},
+	{Prop: "C06", Name: "re-registration skipped when the relayer is already authorised", File: "x/xibc/core/client/keeper/proposal.go", Expect: "C06/passed-registration-is-stored",
+		Old: "\tk.RegisterRelayers(ctx, p.Address, p.Chains, p.Addresses)\n\n\treturn nil", New: "\tif !k.AuthRelayer(ctx, p.Chains[0], p.Address) {\n\t\tk.RegisterRelayers(ctx, p.Address, p.Chains, p.Addresses)\n\t}\n\n\treturn nil"},
+	{Prop: "C16", Name: "middleware recovers from a panic and returns a nil acknowledgement", File: fAggMW, Expect: "C16/no-swallowed-panic",
+		Old: "\treturn im.keeper.OnRecvPacket(ctx, packet, ack)", New: "\tdefer func() { _ = recover() }()\n\treturn im.keeper.OnRecvPacket(ctx, packet, ack)"},
+	{Prop: "C20", Name: "no vesting in the first block", File: "x/rvesting/module/module.go", Expect: "C20/runs-in-every-block",
+		Old: "\tBeginBlocker(ctx, am.keeper)", New: "\tif ctx.BlockHeight() > 1 {\n\t\tBeginBlocker(ctx, am.keeper)\n\t}"},
+	{Prop: "C19", Name: "ETH iteration key read back without its revision", File: "x/xibc/clients/light-clients/eth/types/store.go", Expect: "C19/iteration-keys-read-back-whole",
+		Old: "\treturn clienttypes.NewHeight(revision, height)", New: "\t_ = revision\n\treturn clienttypes.NewHeight(0, height)"},
+	{Prop: "C11", Name: "aggregate keeper on the burn-redirecting bank keeper", File: "app/app.go", Expect: "C11/burn-removes-supply",
+		Old: "\t\tapp.AccountKeeper,\n\t\tapp.BankKeeper,\n\t\tapp.EvmKeeper,\n\t)", New: "\t\tapp.AccountKeeper,\n\t\toverwriteBankKeeper,\n\t\tapp.EvmKeeper,\n\t)"},
 	// C10
 	{Prop: "C10", Name: "timestamp may equal the parent's", File: fEthHdr, Expect: "C10/",
 		Old: "if header.Time <= parentHeader.Time {", New: "if header.Time < parentHeader.Time {"},
